@@ -923,3 +923,41 @@ Proof.
   rewrite (map_nth (fun x => (x - m batch_advs) * s batch_advs) batch_advs 0 j).
   unfold batch_advs at 1. rewrite G. reflexivity.
 Qed.
+
+(* ========================================================================================== *)
+(* 6. stacking entries of different number kinds                                               *)
+(* ========================================================================================== *)
+Lemma stack_nums_values l : map num_val (stack_nums l) = map num_val l.
+Proof.
+  unfold stack_nums. destruct (existsb is_float l); [|reflexivity].
+  rewrite map_map. apply map_ext. intros x. reflexivity.
+Qed.
+
+Lemma stack_nums_one_kind l :
+  Forall (fun x => is_float x = true) (stack_nums l) \/ Forall (fun x => is_float x = false) (stack_nums l).
+Proof.
+  unfold stack_nums. destruct (existsb is_float l) eqn:H.
+  - left. apply Forall_forall. intros x Hx. apply in_map_iff in Hx. destruct Hx as (y & <- & _). reflexivity.
+  - right. apply Forall_forall. intros x Hx.
+    destruct (is_float x) eqn:Hf; [|reflexivity].
+    assert (existsb is_float l = true) by (apply existsb_exists; exists x; auto). congruence.
+Qed.
+
+(* the estimates computed from the stacked rollout are those of the values that were recorded *)
+Lemma gae_after_stack_lemma g l rs vs ds nv nd :
+  gae_col g l (map num_val (stack_nums rs)) (map num_val (stack_nums vs)) (map num_val (stack_nums ds)) nv nd =
+  gae_col g l (map num_val rs) (map num_val vs) (map num_val ds) nv nd.
+Proof. rewrite !stack_nums_values. reflexivity. Qed.
+
+(* keeping the first entry's kind: rewards [0 (int); 1/2; 1 (int); 3/4] become [0; 0; 1; 0] and the first estimate
+   (gamma = lambda = 1, values 0) is 1 instead of 9/4 *)
+Lemma stack_first_kind_wrong :
+  exists rs : list num,
+    map num_val (stack_first_kind rs) <> map num_val rs /\
+    let zeros := [0; 0; 0; 0] in
+    nth 0 (advs_of (gae_col 1 1 (map num_val (stack_first_kind rs)) zeros zeros 0 0)) 0 == 1 /\
+    nth 0 (advs_of (gae_col 1 1 (map num_val (stack_nums rs)) zeros zeros 0 0)) 0 == 9 # 4.
+Proof.
+  exists [NInt 0; NFloat (1 # 2); NInt 1; NFloat (3 # 4)].
+  split; [discriminate|]. split; reflexivity.
+Qed.
